@@ -10,7 +10,7 @@ use std::collections::BTreeSet;
 
 pub static DEF: PropDef = PropDef {
     id: "C17",
-    rule: "regex ASTs (literal a/b/c/'.'/'+'/'?'/newline (the '+' and '?' ordinary in the basic syntaxes, written [+] [?] where they are operators), any-char '.', positive/negative bracket sets with ranges, concatenation, alternation, grouping, '*', '+', '?', intervals {m}, {m,}, {m,n} with n <= 3) of depth <= 5, rendered into each supported syntax using only the constructs GNU find documents for it (emacs: \\( \\) \\| * + ?; posix-basic / ed / sed / grep: \\( \\) \\| * \\+ \\? \\{m,n\\}; posix-extended: ( ) | * + ? {m,n}); the literals ( ) | (ordinary outside posix-extended, backslashed there - and an unmatched ')' also bare there); in a fifth of the cases the pattern begins (after the starting-point prefix) with a group holding a word and a back-reference to it, so that its language is W W L(re); in a third of the cases the whole pattern between anchors that change nothing about its language (^ or \\` in front, $ or \\' or a group and $ behind), alternation branches also rendered in reversed order; subjects: strings generated FROM the AST (members), their proper prefixes and one-character extensions (the prefix/substring trap), one-character edits, random strings over the same alphabet, and (where the pattern has no '.' or negated set, the only constructs that could consume it) members followed or preceded by a newline and further text, all embedded as paths r/<subject> with the pattern prefixed by the literal r/. Oracle: an independent set-of-end-positions matcher over the AST deciding membership of the ENTIRE path (ASCII case folding for -iregex). tier A through the verif-hooks entry point: exhaustive over every AST of <= 4 (thorough 5) nodes on {a, b, .} x every subject of <= 4 symbols over {a, b} x every syntax x both case modes, then random; tier B end to end: find r [-regextype T] -regex|-iregex P -print0 on a directory whose files are named by the subjects; positional -regextype: the option placed before a parenthesised group, inside an earlier group, twice with different types. Non-trivial = the AST contains an alternation or a counted repetition (+, ?, interval), and the subject set contains a member, a non-member, and a proper prefix of a member that is itself a member of one alternative or a non-member. Distinct = distinct case JSON.",
+    rule: "regex ASTs (literal a/b/c/'.'/'+'/'?'/newline (the '+' and '?' ordinary in the basic syntaxes, written [+] [?] where they are operators), any-char '.', positive/negative bracket sets with ranges, concatenation, alternation, grouping, '*', '+', '?', intervals {m}, {m,}, {m,n} with n <= 3) of depth <= 5, rendered into each supported syntax using only the constructs GNU find documents for it (emacs: \\( \\) \\| * + ?; posix-basic / ed / sed / grep: \\( \\) \\| * \\+ \\? \\{m,n\\}; posix-extended: ( ) | * + ? {m,n}); the literals ( ) | (ordinary outside posix-extended, backslashed there - and an unmatched ')' also bare there); in a fifth of the cases the pattern begins (after the starting-point prefix) with a group holding a word and a back-reference to it, so that its language is W W L(re); for half of the ASTs that are an alternation at the top, that alternation is written at the top of the pattern with the starting-point prefix inside each alternative (r/A|r/B rather than r/(A|B)); in a third of the cases the whole pattern between anchors that change nothing about its language (^ or \\` in front, $ or \\' or a group and $ behind), alternation branches also rendered in reversed order; subjects: strings generated FROM the AST (members), their proper prefixes and one-character extensions (the prefix/substring trap), one-character edits, random strings over the same alphabet, and (where the pattern has no '.' or negated set, the only constructs that could consume it) members followed or preceded by a newline and further text, all embedded as paths r/<subject> with the pattern prefixed by the literal r/. Oracle: an independent set-of-end-positions matcher over the AST deciding membership of the ENTIRE path (ASCII case folding for -iregex). tier A through the verif-hooks entry point: exhaustive over every AST of <= 4 (thorough 5) nodes on {a, b, .} x every subject of <= 4 symbols over {a, b} x every syntax x both case modes, then random; tier B end to end: find r [-regextype T] -regex|-iregex P -print0 on a directory whose files are named by the subjects; positional -regextype: the option placed before a parenthesised group, inside an earlier group, twice with different types. Non-trivial = the AST contains an alternation or a counted repetition (+, ?, interval), and the subject set contains a member, a non-member, and a proper prefix of a member that is itself a member of one alternative or a non-member. Distinct = distinct case JSON.",
     assumptions: &[
         "back-references other than the leading group-and-reference, anchors inside patterns (anchors around the whole pattern are generated), POSIX classes, case folding beyond ASCII are not generated; newlines in paths only for patterns without . and negated sets",
         "only constructs GNU find documents for each syntax are rendered (emacs without intervals)",
@@ -470,7 +470,9 @@ pub struct Case {
     pub no_prefix: bool,
     /// anchors around the whole pattern, which change nothing about its language: bits 0-1 at the
     /// end (1 `$`, 2 `\'`, 3 the pattern grouped and then `$`), bits 2-3 at the start (1 `^`, 2 `` \` ``);
-    /// bit 4: in posix-extended a literal `)` outside every group is written without its backslash
+    /// bit 4: in posix-extended a literal `)` outside every group is written without its backslash;
+    /// bit 5: an alternation at the top of the AST is written at the top of the pattern, each
+    /// alternative with the starting-point prefix of its own
     #[serde(default)]
     pub anchors: u8,
     /// a word W: the pattern (after the starting-point prefix) begins with a group holding W and a
@@ -490,6 +492,31 @@ fn render_case(c: &Case, f: &Re) -> String {
         let at = p.find(&format!("r/{w}{w}")).expect("prefix and the doubled word are literal text") + 2;
         let n = if c.anchors & 3 == 3 { 2 } else { 1 };
         p.replace_range(at..at + 2 * w.len(), &format!("{open}{w}{close}\\{n}"));
+    }
+    if let (true, Re::Alt(branches)) = (c.anchors & 32 != 0 && !c.no_prefix, &c.re) {
+        // the alternation at the top of the AST written at the top of the pattern, each alternative
+        // with the prefix of its own: r/A|r/B instead of r/(A|B) - the same language, and the only
+        // form in which a whole-path match has to choose between top-level alternatives
+        let root = if p.starts_with("c/r/") { "c/r/" } else { "r/" };
+        let bar = if fam == 3 { "|" } else { "\\|" };
+        let n = if c.anchors & 3 == 3 { 2 } else { 1 };
+        let mut order: Vec<&Re> = branches.iter().collect();
+        if c.rev_alt {
+            order.reverse();
+        }
+        let parts: Vec<String> = order
+            .iter()
+            .enumerate()
+            .map(|(k, b)| {
+                let word = match c.backref.as_ref() {
+                    Some(w) if k == 0 => format!("{open}{w}{close}\\{n}"),
+                    Some(w) => format!("{w}{w}"),
+                    None => String::new(),
+                };
+                format!("{root}{word}{}", render(&Re::Cat(vec![(*b).clone()]), &c.syntax, c.rev_alt))
+            })
+            .collect();
+        p = parts.join(bar);
     }
     if c.anchors & 3 == 3 {
         p = format!("{open}{p}{close}");
@@ -593,7 +620,7 @@ pub fn gen_case(g: &mut Gen) -> Case {
     let ok: Vec<&str> = SYNTAXES.iter().copied().filter(|s| re.expressible(s)).collect();
     let syntax = g.pick(&ok).to_string();
     let mut subjects = gen_subjects(g, &re);
-    let anchors = if g.chance(1, 3) { g.weighted(&[3, 4, 2, 2]) as u8 | (g.weighted(&[4, 2, 1]) as u8) << 2 | if g.chance(1, 3) { 16 } else { 0 } } else { 0 };
+    let anchors = (if g.chance(1, 3) { g.weighted(&[3, 4, 2, 2]) as u8 | (g.weighted(&[4, 2, 1]) as u8) << 2 | if g.chance(1, 3) { 16 } else { 0 } } else { 0 }) | if matches!(re, Re::Alt(_)) && g.bool() { 32 } else { 0 };
     let no_prefix = g.chance(1, 5);
     let backref = if !no_prefix && g.chance(1, 5) { Some(g.pick(&["a", "ab", "b", "c", "ba"]).to_string()) } else { None };
     if let Some(w) = &backref {
@@ -887,6 +914,8 @@ fn run(w: &mut Worker) {
             }
             if re.has_alt() {
                 cases.push(Case { re: re.clone(), subjects: subs.clone(), syntax: syn.to_string(), icase: false, rev_alt: true, no_prefix: true, anchors: 1, backref: None });
+                cases.push(Case { re: re.clone(), subjects: subs.clone(), syntax: syn.to_string(), icase: false, rev_alt: false, no_prefix: false, anchors: 32, backref: None });
+                cases.push(Case { re: re.clone(), subjects: subs.clone(), syntax: syn.to_string(), icase: false, rev_alt: true, no_prefix: false, anchors: 32 | 1, backref: None });
                 cases.push(Case { re: re.clone(), subjects: subs.iter().flat_map(|s| [format!("aa{s}"), format!("a{s}")]).collect(), syntax: syn.to_string(), icase: false, rev_alt: true, no_prefix: false, anchors: 0, backref: Some("a".into()) });
             }
         }
